@@ -78,6 +78,8 @@ type ProgramResult struct {
 	AssertsSym   int            `json:"assert_queries"`
 	AssertsConc  int            `json:"asserts_concrete"`
 	SymFmt       int            `json:"fmt_placeholders"`
+	XChecked     int            `json:"cross_checked_queries"`
+	XDisagree    int            `json:"cross_check_disagreements"`
 	Reach        map[string]int `json:"reach"`
 	Assumes      map[string]int `json:"assume_pruned"`
 	Inconclusive map[string]int `json:"inconclusive,omitempty"`
@@ -485,6 +487,8 @@ func (pl *pool) runProgram(ps ProgramSpec) ProgramResult {
 	res.SolverS = total.SolverDur.Seconds()
 	res.AssertsSym, res.AssertsConc = total.AssertsSym, total.AssertsConc
 	res.SymFmt = total.SymFmt
+	res.XChecked = total.XChecked
+	res.XDisagree = total.XDisagree
 	res.Reach = total.Reach
 	res.Assumes = total.Assumes
 	res.Inconclusive = total.Inconcl
